@@ -196,7 +196,7 @@ def op_table(ctx: Ctx, rule: str, op: str) -> None:
     # default mode
     default = {"get": "ra", "set": "ff", "unset": "fi"}[op]
     fn = ctx.repo.func(fref)
-    d = [c for c in calls_in(fn.node) if call_name(c) == "get" and c.args and isinstance(c.args[0], ast.Constant) and c.args[0].value == f"{op}_mode"]
+    d = [c for c in calls_in(fn.node) if call_name(c) in ("get", "setdefault") and c.args and isinstance(c.args[0], ast.Constant) and c.args[0].value == f"{op}_mode"]
     ok = len(d) == 1 and len(d[0].args) == 2 and isinstance(d[0].args[1], ast.Constant) and d[0].args[1].value == default
     ctx.record(rule + "d", "CONST", fref, f"default {op}_mode is '{default}'", ok, {"found": [ast.unparse(c) for c in d]},
                "" if ok else f"the default {op}_mode changed")
@@ -255,7 +255,7 @@ def check_table(ctx: Ctx, rule: str) -> None:
     ok = len(tail) == 1 and isinstance(tail[0].value, ast.Constant) and tail[0].value.value is True and fn.node.body[-1] is tail[0]
     ctx.record(rule + "t", "TABLE", fref, "all addressed objects have the state -> return True", ok, {},
                "" if ok else "check_states no longer returns True exactly when no object was missing the state")
-    d = [c for c in calls_in(fn.node) if call_name(c) == "get" and c.args and isinstance(c.args[0], ast.Constant) and c.args[0].value == "check_mode"]
+    d = [c for c in calls_in(fn.node) if call_name(c) in ("get", "setdefault") and c.args and isinstance(c.args[0], ast.Constant) and c.args[0].value == "check_mode"]
     okd = len(d) == 1 and len(d[0].args) == 2 and isinstance(d[0].args[1], ast.Constant) and d[0].args[1].value == "rf"
     ctx.record(rule + "d", "CONST", fref, "default check_mode is 'rf'", okd, {}, "" if okd else "the default check_mode changed")
     # forced root handling is confined to the worker's own scope
